@@ -1,12 +1,9 @@
 import Mp.CacheProofs
-import Mp.FactChecks
 import Mp.CacheKeyProofs
 /-! C16 — CueValidate is a deterministic function of its arguments: the caches are unobservable. -/
 #print axioms Mp.memo_spec
 #print axioms Mp.step_spec
 #print axioms Mp.inv_hist
 #print axioms Mp.cache_transparent
-#print axioms Mp.FactChecks.cache_skeleton
-#print axioms Mp.FactChecks.cache_values_are_functions_of_their_keys
 #print axioms Mp.memoK_injective
 #print axioms Mp.memoK_collision_observable
